@@ -21,20 +21,41 @@ LEVEL_TEXT = ("Lean 4 theorems (all sizes, all patterns) about executable models
               "transpose (incl. the build machine with replicate(n,r,c) as a step followed by further new_row/add_element: for "
               "every prefix, capacity and continuation the result holds exactly prefix ++ appended rows; the members replicate "
               "copies are regenerated from smatrix.h), SparseMatrixGraph, connected(), RootedLevelStructure/PseudoPeripheralNode/"
-              "ReverseCuthillMcKee, Envelope set/cholDec/solves/inverse on the packed profile, and BlockDiagonal "
+              "ReverseCuthillMcKee, Envelope set/cholDec/solves/inverse on the packed profile (the whole loop nest of "
+              "Envelope::cholDec - default tolerance, bounds, index arithmetic, order of the two solves, accumulation, pivot "
+              "update, test |d| < tol, zero, defect++ - is regenerated from envelope.h into Gen/CholDecLoop and the model is "
+              "equal to it by rfl: C16_choldec_source_tie; the ranged calls lowerSolve/diagonalSolve(start,stop), "
+              "upperSolve(1,k) = dense solves on the sub-block: C16_lower_solve_range, C16_diagonal_solve_range, "
+              "C16_upper_solve_prefix), the two models of Homogenization::run (C10's Cov.Hom.run and the solver's "
+              "Ls.Env.homogenize) equal in values and rejections (C16_hom_run_eq_env_homogenize; hypotheses: square-root law, "
+              "Env.HoldsProblem incl. no repeated column index in a row), envSolve's answers = the packed kernels on "
+              "Hom.run's output with the reverse Cuthill-McKee ordering of the graph of that output itself (C16_envsolve_packed, "
+              "round 10: out.sm well formed, its stored pattern and graph equal the solver model's, defect / factor / particular "
+              "solution / sparse inverse inside the profile equal; hypotheses: square-root law, RowsOK, Env.HoldsProblem; both sides "
+              "shown to answer on an instance at tol 1e-14), and BlockDiagonal "
               "(add_block/replicate/cholDec as the pointer walk over all blocks with the early return) + "
               "UpperBlockDiagonal row table; models tied to the "
               "C++ by differential correspondence (bit-exact for data movement, exact rationals and IEEE doubles for "
               "the factorisation) and an exact-fraction dense oracle on the implementation's own output.")
-LEVEL_NOTE = ("Trusted: Lean kernel, statements in Props/C16.lean, harness/c16_sparse.cpp, this generator/comparator. "
+LEVEL_NOTE = ("Trusted: Lean kernel, statements in Props/C16.lean, C16Ls.lean, C16CholSource.lean, C16Packed.lean, "
+              "harness/c16_sparse.cpp, this generator/comparator. "
               "Theorems are over linearly ordered fields (exact arithmetic); IEEE rounding is observed, not proved. "
               "Preconditions the C++ never checks (capacity, every row started, column index in 1..cols) are hypotheses "
-              "(SMat.WF), listed in ASSUMPTIONS.")
+              "(SMat.WF), listed in ASSUMPTIONS. Not regenerated (hand models + correspondence): Envelope::set, lowerSolve, "
+              "diagonalSolve, upperSolve, inverse, the bodies of new_row/add_element/transpose, BlockDiagonal::cholDec. No new "
+              "stream for C16Packed (its models are tied by C10's homrun stream, the envelope streams and drv_ls). Left in "
+              "C16_envsolve_packed / C16_hom_run_eq_env_homogenize: the hypothesis 'no repeated column index in a row' (RowsOK, "
+              "nodupRows: the solver-side Problem.dense overwrites a repeated index, the C++ sums since 6d0f7107); the adjusted "
+              "unknowns a.x enter only through the particular solution fact.x0p; a.q0xx is tied to Envelope::inverse through "
+              "zEntry inside the profile, not restated as one equation; that LocalNetwork hands a pair satisfying HoldsProblem is "
+              "not derived.")
 TECHNIQUE = ("Lean 4 proof (loop invariants over the array programs, refinement packed profile -> dense LDL') + "
              "model/implementation correspondence + exact dense oracle")
 TRUSTED = ["translator tools/gen/c16_members.py (members of SparseMatrix, constructor, replicate(n,r,c): assignments and memcpy counts)",
-           "translator tools/props/c16.py::translate (reads the first row of the cholDec loop from envelope.h; "
-           "validated by the correspondence on defect counts)",
+           "translator tools/gen/c16_choldec.py on the C front end tools/gen/cfun.py (loop nest of Envelope::cholDec matched "
+           "against a statement skeleton, 16 holes regenerated into Gen/CholDecLoop; anything else stops the run)",
+           "translator tools/props/c16.py::translate (regex: first row of the cholDec loop from envelope.h -> "
+           "Gen/EnvelopeConst; now redundant with Gen.Chol.firstRow, equated in C16_choldec_source_tie)",
            "python exact-fraction oracle in tools/props/c16.py"]
 MODELLED = ["std::set<std::pair<int,int>> iteration order (modelled as a strictly sorted list)",
             "std::sort on (degree,node) pairs (modelled by List.mergeSort; keys are distinct)",
